@@ -726,7 +726,18 @@ pub fn run_check(cfg: &CheckCfg) -> CheckResult {
                 let rep = make_replay(cfg, *index, &min_case, &min_found);
                 let dir = format!("{}/replays", cfg.verif_dir);
                 let _ = std::fs::create_dir_all(&dir);
-                let path = format!("{}/{}-{}-{}.json", dir, cfg.id, cfg.seed, index);
+                // (one scenario can yield findings with different keys: one file each)
+                let mut path = format!("{}/{}-{}-{}.json", dir, cfg.id, cfg.seed, index);
+                if violations_out.iter().any(|l| l.ends_with(&path)) {
+                    path = format!(
+                        "{}/{}-{}-{}-{:04x}.json",
+                        dir,
+                        cfg.id,
+                        cfg.seed,
+                        index,
+                        crate::raw::digest_text(&min_found.key) as u16
+                    );
+                }
                 std::fs::write(&path, serde_json::to_string_pretty(&rep).unwrap()).unwrap();
                 // the replay must reproduce in a fresh evaluation
                 let again = replay_found(&rep);
